@@ -35,8 +35,12 @@ def run(ctx):
         "'no data race' is not a theorem (Go memory model not modelled): observed with the race detector on every run of this check",
         "adversarial schedules are induced by sleeps/yields in resolvers (random, and reversed completion order of root fields)",
     ]
-    cfgs = ["base", "wl1", "wl2"] if ctx.tier == "quick" else ["base", "wl1", "wl2", "wl8", "follow_funcsyn_wl2", "noptr"]
+    cfgs = ["base", "wl1", "wl2", "follow_funcsyn_wl2"] if ctx.tier == "quick" else ["base", "wl1", "wl2", "wl8", "follow_funcsyn_wl2", "noptr"]
     built = gensrv.build_matrix(ctx, "exec", cfgs, race=True)
+    # the same schema with renamed roots (schema { query: RootQuery mutation: RootMutation })
+    rn = gensrv.build_matrix(ctx, "execrn", ["base"], race=True)
+    built["execrn:base"] = rn["base"]
+    cfgs = list(cfgs) + ["execrn:base"]
     base_plain = gensrv.build_matrix(ctx, "exec", ["base"])
     ok_extract = not isinstance(base_plain["base"], Exception) and ctx.extract("GoBoundaries", arg=gensrv.gen_dir("exec", "base"))
     proved = ok_extract and ctx.prove(props=["GqlgenVerif.Props.C06"])
